@@ -12,7 +12,10 @@ Fragment:
   statements : assignment to a name / tuple of names, annotated declaration without value (skipped),
                docstring (skipped), `assert` (type-level asserts listed in `skip_asserts` are
                skipped, others become the Boolean `<fn>_pre`), `if/elif/else`, `match` on int
-               literals with `case _`, `return e` / `return (e,)` / `return None`, `raise` (→ none)
+               literals with `case _`, `return e` / `return (e,)` / `return None`, `raise` (→ none),
+               `return C(e, T[, truncate_bits=<bool literal>])` for a constructor `C` named in the
+               function's `ret_ctor` (the integer-attribute constructor; the translated function
+               returns the payload `C` normalises `e` to at the width of `T`, `none` where `C` raises)
   expressions: int/bool literals, names, `+ - * // % & | ^ << >> **`(constant base 2), unary `- ~ not`,
                comparisons (chained), `and/or`, conditional expression, calls to `abs/min/max` and to
                other translated functions, plus per-function *substitutions* that map a source
@@ -38,6 +41,9 @@ class FnSpec:
     # python parameter names that are bound directly (same name in lean)
     skip_asserts: tuple[str, ...] = ("isa(", "len(args)", "isinstance(")
     tuple_unpack_of: dict[str, list[str]] = field(default_factory=dict)  # e.g. {"args": ["a","b"]}
+    # constructor name -> (lean function `width value truncate_bits : Option Int`, {type name: width}):
+    # `return C(e, T, truncate_bits=b)` becomes `<lean function> <width of T> e b`
+    ret_ctor: dict[str, tuple[str, dict[str, int]]] = field(default_factory=dict)
 
 
 KNOWN_CALLS_PRIM = {"abs": ("Py.abs", 1), "min": ("Py.min", 2), "max": ("Py.max", 2)}
@@ -169,6 +175,30 @@ class FnTranslator:
             raise TranslationError(f"return types differ: {self.ret_type} vs {t}")
         return f"(some {v})" if self.uses_option else v
 
+    def ctor_return(self, c: ast.Call, env: dict[str, str]) -> str:
+        """`return C(e, T[, truncate_bits=b])`: the payload the constructor normalises `e` to (Option)"""
+        lname, widths = self.spec.ret_ctor[c.func.id]  # type: ignore[union-attr]
+        if len(c.args) != 2 or not isinstance(c.args[1], ast.Name) or c.args[1].id not in widths:
+            raise TranslationError("constructor call " + ast.unparse(c))
+        tb = "false"
+        for k in c.keywords:
+            if k.arg == "truncate_bits" and isinstance(k.value, ast.Constant) and isinstance(k.value.value, bool):
+                tb = "true" if k.value.value else "false"
+            else:
+                raise TranslationError("constructor keyword in " + ast.unparse(c))
+        v, t = self.expr(c.args[0], env)
+        if t != "int":
+            raise TranslationError("constructor payload of type " + t)
+        if self.mode == "pre":
+            return "true"
+        if not self.uses_option:
+            raise TranslationError("constructor return in a total function")
+        if self.ret_type is None:
+            self.ret_type = "int"
+        elif self.ret_type != "int":
+            raise TranslationError(f"return types differ: {self.ret_type} vs int")
+        return f"({lname} ({widths[c.args[1].id]} : Int) {v} {tb})"
+
     def stmts(self, ss: list[ast.stmt], env: dict[str, str], ind: str) -> str:
         if not ss:
             raise TranslationError("fell off the end of a function without return")
@@ -260,6 +290,8 @@ class FnTranslator:
             v = s.value
             if isinstance(v, ast.Tuple) and len(v.elts) == 1:
                 v = v.elts[0]
+            if isinstance(v, ast.Call) and isinstance(v.func, ast.Name) and v.func.id in self.spec.ret_ctor:
+                return ind + self.ctor_return(v, env)
             val, ty = self.expr(v, env)
             return ind + self.ret(val, ty)
         if isinstance(s, ast.Pass):
@@ -300,7 +332,7 @@ def translate_function(tree: ast.Module, spec: FnSpec, known: dict[str, tuple[st
     """returns (lean source of def [+ _pre def], return type tag)"""
     fn = find_function(tree, spec.py_name)
     tr = FnTranslator(spec, known)
-    tr.uses_option = _needs_option(fn)
+    tr.uses_option = _needs_option(fn) or bool(spec.ret_ctor)
     env = {n: ("int" if ty == "Int" else "bool") for n, ty in spec.params}
     body = tr.stmts(fn.body, env, "  ")
     rt = tr.ret_type
